@@ -64,6 +64,42 @@ func definiteAssign(w *World, f *ssa.Function, depth int) map[string]assigned {
 			}
 			if onAllPaths(in) {
 				out[p] = assigned{path: p, val: x.Val, fn: f, store: in}
+				// a whole struct stored at once (c.writer = responseWriter{...}): every sub-field is assigned, with
+				// the value the literal gave it or the zero value
+				if stT, isStruct := x.Val.Type().Underlying().(*types.Struct); isStruct {
+					if ld, isLd := x.Val.(*ssa.UnOp); isLd && ld.Op == token.MUL {
+						if lit, isAl := ld.X.(*ssa.Alloc); isAl {
+							vals := map[int]ssa.Value{}
+							whole := false
+							for _, ref := range *lit.Referrers() {
+								switch y := ref.(type) {
+								case *ssa.FieldAddr:
+									for _, r2 := range *y.Referrers() {
+										if st2, isSt := r2.(*ssa.Store); isSt && st2.Addr == ssa.Value(y) {
+											vals[y.Field] = st2.Val
+										}
+									}
+								case *ssa.Store:
+									if y.Addr == ssa.Value(lit) {
+										if _, zero := y.Val.(*ssa.Const); !zero {
+											whole = true // copied from another struct value: not a literal
+										}
+									}
+								}
+							}
+							if !whole {
+								for i := 0; i < stT.NumFields(); i++ {
+									v, has := vals[i]
+									if !has {
+										v = ssa.NewConst(nil, stT.Field(i).Type())
+									}
+									sp := p + "." + stT.Field(i).Name()
+									out[sp] = assigned{path: sp, val: v, fn: f, store: in}
+								}
+							}
+						}
+					}
+				}
 			}
 		case *ssa.Call:
 			sc := staticCallee(x)
